@@ -150,8 +150,8 @@ func SolveAll(v *FnVC, timeoutMs int, scratch string, sem chan struct{}) (vacuou
 		if o.IsCover {
 			want = "sat"
 		}
-		if o.Result == want {
-			continue
+		if o.Result == want && !(crossCheck && !o.IsCover) {
+			continue // thorough tier: every obligation is put to all three back ends, also those the batch pass decided
 		}
 		if o.IsCover && (o.Result == "unknown" || o.Result == "timeout") {
 			continue // a cover only fails when it is refuted (unsat); quantified contexts often give unknown
@@ -222,12 +222,15 @@ var noRetry = map[string]bool{}
 // exemptCheck: set by verify(); exempt obligations are not counted, so they are not worth a second attempt either.
 var exemptCheck func(string) string
 
+// retryUndecided: off while the must-fail corpus runs (its failing obligations are expected to be undecided).
+var retryUndecided = true
+
 // solveOne decides one obligation with the solver portfolio. An undecided answer (unknown / time-out from every
 // back end) is retried once with three times the time limit before it is reported: an obligation that is decided in a
 // fraction of a second on an idle machine must not become an alarm because the machine was busy.
 func solveOne(ctxText string, o *Oblig, timeoutMs int, sem chan struct{}) {
 	solveOnce(ctxText, o, timeoutMs, sem)
-	if !o.IsCover && !noRetry[o.Name] && (exemptCheck == nil || exemptCheck(o.Name) == "") && o.Result != "unsat" && o.Result != "sat" && o.Result != "disagree" && !strings.HasPrefix(o.Result, "error") {
+	if retryUndecided && !o.IsCover && !noRetry[o.Name] && (exemptCheck == nil || exemptCheck(o.Name) == "") && o.Result != "unsat" && o.Result != "sat" && o.Result != "disagree" && !strings.HasPrefix(o.Result, "error") {
 		if os.Getenv("GOVC_TRACE") != "" {
 			fmt.Fprintf(os.Stderr, "retry %s (%s)\n", o.Name, o.Result)
 		}
